@@ -506,7 +506,19 @@ void fp12_read_bin(fp12_t a, const uint8_t *bin, size_t len) {
 		fp2_read_bin(a[1][0], bin + 4 * RLC_FP_BYTES, 2 * RLC_FP_BYTES);
 		fp2_zero(a[1][1]);
 		fp2_read_bin(a[1][2], bin + 6 * RLC_FP_BYTES, 2 * RLC_FP_BYTES);
-		fp12_back_cyc(a, a);
+		if (fp2_is_zero(a[0][1]) &&
+				fp2_is_zero(a[0][2]) &&
+				fp2_is_zero(a[1][0]) &&
+				fp2_is_zero(a[1][2])) {
+			/* The compressed form of the identity. */
+			fp12_set_dig(a, 1);
+		} else {
+			fp12_back_cyc(a, a);
+			if (!fp12_test_cyc(a)) {
+				RLC_THROW(ERR_NO_VALID);
+				return;
+			}
+		}
 	}
 	if (len == 12 * RLC_FP_BYTES) {
 		fp6_read_bin(a[0], bin, 6 * RLC_FP_BYTES);
@@ -522,7 +534,7 @@ void fp12_write_bin(uint8_t *bin, size_t len, const fp12_t a, int pack) {
 	RLC_TRY {
 		fp12_new(t);
 
-		if (pack) {
+		if (pack && fp12_test_cyc(a)) {
 			if (len != 8 * RLC_FP_BYTES) {
 				RLC_THROW(ERR_NO_BUFFER);
 			}
@@ -667,7 +679,19 @@ void fp18_read_bin(fp18_t a, const uint8_t *bin, size_t len) {
 		fp3_read_bin(a[1][0], bin + 6 * RLC_FP_BYTES, 3 * RLC_FP_BYTES);
 		fp3_zero(a[1][1]);
 		fp3_read_bin(a[1][2], bin + 9 * RLC_FP_BYTES, 3 * RLC_FP_BYTES);
-		fp18_back_cyc(a, a);
+		if (fp3_is_zero(a[0][1]) &&
+				fp3_is_zero(a[0][2]) &&
+				fp3_is_zero(a[1][0]) &&
+				fp3_is_zero(a[1][2])) {
+			/* The compressed form of the identity. */
+			fp18_set_dig(a, 1);
+		} else {
+			fp18_back_cyc(a, a);
+			if (!fp18_test_cyc(a)) {
+				RLC_THROW(ERR_NO_VALID);
+				return;
+			}
+		}
 	}
 	if (len == 18 * RLC_FP_BYTES) {
 		fp9_read_bin(a[0], bin, 9 * RLC_FP_BYTES);
@@ -683,7 +707,7 @@ void fp18_write_bin(uint8_t *bin, size_t len, const fp18_t a, int pack) {
 	RLC_TRY {
 		fp18_new(t);
 
-		if (pack) {
+		if (pack && fp18_test_cyc(a)) {
 			if (len != 12 * RLC_FP_BYTES) {
 				RLC_THROW(ERR_NO_BUFFER);
 			}
@@ -769,7 +793,19 @@ void fp24_read_bin(fp24_t a, const uint8_t *bin, size_t len) {
 		fp4_read_bin(a[1][1], bin + 4 * RLC_FP_BYTES, 4 * RLC_FP_BYTES);
 		fp4_read_bin(a[2][0], bin + 8 * RLC_FP_BYTES, 4 * RLC_FP_BYTES);
 		fp4_read_bin(a[2][1], bin + 12 * RLC_FP_BYTES, 4 * RLC_FP_BYTES);
-		fp24_back_cyc(a, a);
+		if (fp4_is_zero(a[1][0]) &&
+				fp4_is_zero(a[1][1]) &&
+				fp4_is_zero(a[2][0]) &&
+				fp4_is_zero(a[2][1])) {
+			/* The compressed form of the identity. */
+			fp24_set_dig(a, 1);
+		} else {
+			fp24_back_cyc(a, a);
+			if (!fp24_test_cyc(a)) {
+				RLC_THROW(ERR_NO_VALID);
+				return;
+			}
+		}
 	}
 	if (len == 24 * RLC_FP_BYTES) {
 		fp8_read_bin(a[0], bin, 8 * RLC_FP_BYTES);
@@ -786,7 +822,7 @@ void fp24_write_bin(uint8_t *bin, size_t len, const fp24_t a, int pack) {
 	RLC_TRY {
 		fp24_new(t);
 
-		if (pack) {
+		if (pack && fp24_test_cyc(a)) {
 			if (len != 16 * RLC_FP_BYTES) {
 				RLC_THROW(ERR_NO_BUFFER);
 			}
@@ -869,7 +905,19 @@ void fp48_read_bin(fp48_t a, const uint8_t *bin, size_t len) {
 		fp8_read_bin(a[1][0], bin + 16 * RLC_FP_BYTES, 8 * RLC_FP_BYTES);
 		fp8_zero(a[1][1]);
 		fp8_read_bin(a[1][2], bin + 24 * RLC_FP_BYTES, 8 * RLC_FP_BYTES);
-		fp48_back_cyc(a, a);
+		if (fp8_is_zero(a[0][1]) &&
+				fp8_is_zero(a[0][2]) &&
+				fp8_is_zero(a[1][0]) &&
+				fp8_is_zero(a[1][2])) {
+			/* The compressed form of the identity. */
+			fp48_set_dig(a, 1);
+		} else {
+			fp48_back_cyc(a, a);
+			if (!fp48_test_cyc(a)) {
+				RLC_THROW(ERR_NO_VALID);
+				return;
+			}
+		}
 	}
 	if (len == 48 * RLC_FP_BYTES) {
 		fp24_read_bin(a[0], bin, 24 * RLC_FP_BYTES);
@@ -885,7 +933,7 @@ void fp48_write_bin(uint8_t *bin, size_t len, const fp48_t a, int pack) {
 	RLC_TRY {
 		fp48_new(t);
 
-		if (pack) {
+		if (pack && fp48_test_cyc(a)) {
 			if (len != 32 * RLC_FP_BYTES) {
 				RLC_THROW(ERR_NO_BUFFER);
 			}
@@ -971,7 +1019,19 @@ void fp54_read_bin(fp54_t a, const uint8_t *bin, size_t len) {
 		fp9_read_bin(a[1][1], bin + 9 * RLC_FP_BYTES, 9 * RLC_FP_BYTES);
 		fp9_read_bin(a[2][0], bin + 18 * RLC_FP_BYTES, 9 * RLC_FP_BYTES);
 		fp9_read_bin(a[2][1], bin + 27 * RLC_FP_BYTES, 9 * RLC_FP_BYTES);
-		fp54_back_cyc(a, a);
+		if (fp9_is_zero(a[1][0]) &&
+				fp9_is_zero(a[1][1]) &&
+				fp9_is_zero(a[2][0]) &&
+				fp9_is_zero(a[2][1])) {
+			/* The compressed form of the identity. */
+			fp54_set_dig(a, 1);
+		} else {
+			fp54_back_cyc(a, a);
+			if (!fp54_test_cyc(a)) {
+				RLC_THROW(ERR_NO_VALID);
+				return;
+			}
+		}
 	}
 	if (len == 54 * RLC_FP_BYTES) {
 		fp18_read_bin(a[0], bin, 18 * RLC_FP_BYTES);
@@ -988,7 +1048,7 @@ void fp54_write_bin(uint8_t *bin, size_t len, const fp54_t a, int pack) {
 	RLC_TRY {
 		fp54_new(t);
 
-		if (pack) {
+		if (pack && fp54_test_cyc(a)) {
 			if (len != 36 * RLC_FP_BYTES) {
 				RLC_THROW(ERR_NO_BUFFER);
 			}
